@@ -225,3 +225,30 @@ class VC:
                 key = r.status
             out[key].append(ob)
         return out
+
+
+class _Consts:
+    def __init__(self, d):
+        self.__dict__.update(d)
+
+
+_consts_cache = {}
+
+
+def consts(modname):
+    """constants of a pure-constant repository module (e.g. pandapower.pypower.idx_brch), by interpreting its source"""
+    if modname in _consts_cache:
+        return _consts_cache[modname]
+    it = Interp(Ctx())
+    me = it.modenv(modname)
+    d = {}
+    for name in me.src.defs:
+        try:
+            v = me.get(name)
+        except Exception:
+            continue
+        if isinstance(v, (int, float, str, bool, tuple)):
+            d[name] = v
+    c = _Consts(d)
+    _consts_cache[modname] = c
+    return c
